@@ -13,7 +13,7 @@ import anyio
 
 from vf import gen
 from vf.props.c01 import synth_args, HELPER_RESULTS
-from vf.ref import classify, strict_eq, tagged
+from vf.ref import classify, strict_eq, tagged, msg_to_wire
 from vf.vloop import run_virtual, HangDetected
 
 ID = "C02"
@@ -266,6 +266,8 @@ def run(ctx):
     ctx.extra["senders_discovered"] = sorted(h.rsplit(".", 1)[-1] for h in senders)
     not_driven: List[str] = []
 
+    bursts: List[Any] = []
+
     async def drive_helpers():
         from chuk_mcp.protocol.messages.json_rpc_message import parse_message
         outs = []
@@ -315,6 +317,7 @@ def run(ctx):
                 for s in (rs, rr, ws, wr):
                     s.close()
         for sname, fn in sorted(senders.items()):
+            singles = []
             kwargs = synth_args(fn)
             kwargs.pop("timeout", None) if "timeout" not in inspect.signature(fn).parameters else None
             variants = [kwargs]
@@ -341,6 +344,28 @@ def run(ctx):
                     except Exception:
                         break
                 outs.append((sname, kw, written, err))
+                singles.append(msg_to_wire(written[0]) if len(written) == 1 and err is None else None)
+                ws.close()
+                wr.close()
+            # the same calls in a row on ONE write stream whose consumer serialises later (as every transport's writer
+            # task does): what is taken off the stream afterwards must be what each call emitted on its own
+            if all(w is not None for w in singles) and len(singles) > 1:
+                ws, wr = anyio.create_memory_object_stream(len(variants) + 4)
+                err = None
+                try:
+                    for kw in variants:
+                        await fn(ws, **kw)
+                except BaseException as e:  # noqa
+                    if isinstance(e, (KeyboardInterrupt, SystemExit)):
+                        raise
+                    err = e
+                later = []
+                while True:
+                    try:
+                        later.append(msg_to_wire(wr.receive_nowait()))
+                    except Exception:
+                        break
+                bursts.append((sname, singles, later, err))
                 ws.close()
                 wr.close()
         return outs
@@ -351,6 +376,21 @@ def run(ctx):
         except HangDetected as e:
             ctx.violation("hang", str(e), {"helpers": True})
             outs = []
+        for sname, singles, later, err in bursts:
+            short = sname.rsplit(".", 1)[-1]
+            ctx.count("sender_bursts")
+            case = {"emitter": short, "burst": len(singles)}
+            if err is not None or len(later) != len(singles):
+                ctx.violation("burst_emission_count", f"{short}: {len(singles)} calls in a row on one write stream put {len(later)} "
+                              f"messages on it ({err!r})", case)
+            else:
+                for k, (a, b) in enumerate(zip(singles, later)):
+                    if not strict_eq(a, b):
+                        ctx.violation("payload_altered", f"{short}: call #{k} of {len(singles)} in a row on one write stream emitted "
+                                      f"{json.dumps(a)[:200]} when made alone, but the message taken off the stream after the later "
+                                      f"calls is {json.dumps(b)[:200]} (an emitted message was changed after it was handed over)", case)
+                        break
+            ctx.record(case, shape=len(later), nontrivial=True, cls="sender_burst")
         for name, kw, written, err in outs:
             short = name.rsplit(".", 1)[-1]
             case = {"emitter": short, "args": kw}
